@@ -7,3 +7,6 @@ mkdir -p bin .work evidence replays
 (cd symex && go build -o ../bin/gosymex .)
 cp /repo/go.sum harness/go.sum
 echo "gosymex built"
+# interpreter conformance: go-vise driven on concrete inputs through the
+# executor, observations compared with the native run
+bin/gosymex check -prop CONF -tier quick -no-evidence | tail -2
